@@ -646,9 +646,9 @@ theorem pre_in_cur (w : Int) (cur : Period) (g : Option Int) (T : List (Int × P
     (hwf : transWf cur.off g T = true)
     (hw : ∀ t p rest, T = (t, p) :: rest → w < t + min cur.off p.off) :
     (∀ u, u + (walkU cur T u).off = w → u = w - cur.off) ∧
-    (w - cur.off) + (walkU cur T (w - cur.off)).off = w := by
+    walkU cur T (w - cur.off) = cur := by
   induction T generalizing cur g with
-  | nil => simp only [walkU]; constructor <;> intros <;> omega
+  | nil => simp only [walkU]; exact ⟨by intros; omega, trivial⟩
   | cons tp rest ih =>
     obtain ⟨t, p⟩ := tp
     have hw0 := hw t p rest rfl
@@ -666,7 +666,6 @@ theorem pre_in_cur (w : Int) (cur : Period) (g : Option Int) (T : List (Int × P
       · omega
     · simp only [walkU]
       rw [if_neg (by omega)]
-      omega
 
 theorem wallThreshold_false (t a b : Int) : wallThreshold false t a b = t + max a b := by
   simp [wallThreshold]
@@ -698,19 +697,21 @@ theorem walkW_stop (fold : Bool) (w : Int) (cur : Period) (T : List (Int × Peri
 /-- the three possible situations of a wall second in a zone -/
 inductive Situation (cur : Period) (T : List (Int × Period)) (w : Int) : Prop where
   | unique (P : Period) (h0 : walkW false cur T w = P) (h1 : walkW true cur T w = P)
-      (hpre : (w - P.off) + (walkU cur T (w - P.off)).off = w)
+      (hper : walkU cur T (w - P.off) = P)
       (huniq : ∀ u, u + (walkU cur T u).off = w → u = w - P.off)
   | gap (hoff : (walkW false cur T w).off < (walkW true cur T w).off)
       (hnone : ∀ u, u + (walkU cur T u).off ≠ w)
   | overlap (hoff : (walkW true cur T w).off < (walkW false cur T w).off)
-      (hpre0 : (w - (walkW false cur T w).off) + (walkU cur T (w - (walkW false cur T w).off)).off = w)
-      (hpre1 : (w - (walkW true cur T w).off) + (walkU cur T (w - (walkW true cur T w).off)).off = w)
+      (hper0 : walkU cur T (w - (walkW false cur T w).off) = walkW false cur T w)
+      (hper1 : walkU cur T (w - (walkW true cur T w).off) = walkW true cur T w)
+      (hall : ∀ u, u + (walkU cur T u).off = w →
+        u = w - (walkW false cur T w).off ∨ u = w - (walkW true cur T w).off)
 
 theorem situation (w : Int) (cur : Period) (g : Option Int) (T : List (Int × Period))
     (hwf : transWf cur.off g T = true) : Situation cur T w := by
   induction T generalizing cur g with
   | nil =>
-    exact .unique cur rfl rfl (by simp only [walkU]; omega) (by intro u hu; simp only [walkU] at hu; omega)
+    exact .unique cur rfl rfl rfl (by intro u hu; simp only [walkU] at hu; omega)
   | cons tp rest ih =>
     obtain ⟨t, p⟩ := tp
     rw [transWf_cons] at hwf
@@ -721,21 +722,30 @@ theorem situation (w : Int) (cur : Period) (g : Option Int) (T : List (Int × Pe
         walkW_cons_pos _ _ _ _ _ _ (by rw [wallThreshold_false]; exact ha)
       have e1 : walkW true cur ((t, p) :: rest) w = walkW true p rest w :=
         walkW_cons_pos _ _ _ _ _ _ (by rw [wallThreshold_true]; omega)
+      have hbefore : ∀ u, ¬ t ≤ u → walkU p rest u = p := fun u hu =>
+        walkU_before p rest u (by intro x hx; have := hsorted x hx; omega)
       have eU : ∀ u, u + (walkU cur ((t, p) :: rest) u).off = w ↔ u + (walkU p rest u).off = w := by
         intro u
         simp only [walkU]
         by_cases hu : t ≤ u
         · rw [if_pos hu]
-        · rw [if_neg hu]
-          have : walkU p rest u = p := walkU_before p rest u (by
-            intro x hx; have := hsorted x hx; omega)
-          rw [this]; omega
-      rcases ih p _ hwf.2 with ⟨P, h0, h1, hpre, huniq⟩ | ⟨hoff, hnone⟩ | ⟨hoff, hpre0, hpre1⟩
-      · exact .unique P (e0 ▸ h0) (e1 ▸ h1) ((eU _).2 hpre) (fun u hu => huniq u ((eU u).1 hu))
+        · rw [if_neg hu, hbefore u hu]; omega
+      -- a preimage in the rest of the table lies at or after this transition
+      have eP : ∀ u, u + (walkU p rest u).off = w →
+          walkU cur ((t, p) :: rest) u = walkU p rest u := by
+        intro u hu
+        simp only [walkU]
+        by_cases hge : t ≤ u
+        · rw [if_pos hge]
+        · rw [hbefore u hge] at hu; omega
+      rcases ih p _ hwf.2 with ⟨P, h0, h1, hper, huniq⟩ | ⟨hoff, hnone⟩ | ⟨hoff, hper0, hper1, hall⟩
+      · refine .unique P (e0 ▸ h0) (e1 ▸ h1) ?_ (fun u hu => huniq u ((eU u).1 hu))
+        rw [eP _ (by rw [hper]; omega), hper]
       · exact .gap (by rw [e0, e1]; exact hoff) (fun u hu => hnone u ((eU u).1 hu))
-      · refine .overlap (by rw [e0, e1]; exact hoff) ?_ ?_
-        · rw [e0]; exact (eU _).2 hpre0
-        · rw [e1]; exact (eU _).2 hpre1
+      · refine .overlap (by rw [e0, e1]; exact hoff) ?_ ?_ ?_
+        · rw [e0, eP _ (by rw [hper0]; omega), hper0]
+        · rw [e1, eP _ (by rw [hper1]; omega), hper1]
+        · intro u hu; rw [e0, e1]; exact hall u ((eU u).1 hu)
     · have e0 : walkW false cur ((t, p) :: rest) w = cur :=
         walkW_cons_neg _ _ _ _ _ _ (by rw [wallThreshold_false]; exact ha)
       have hnext : ∀ t' p' rest', rest = (t', p') :: rest' → t + max cur.off p.off ≤ t' + min p.off p'.off := by
@@ -759,9 +769,15 @@ theorem situation (w : Int) (cur : Period) (g : Option Int) (T : List (Int × Pe
           split at hu
           · have := hB.1 u hu; omega
           · omega
-        · refine .overlap (by rw [e0, e1]; omega) ?_ ?_
-          · rw [e0]; simp only [walkU]; rw [if_neg (by omega)]; omega
+        · refine .overlap (by rw [e0, e1]; omega) ?_ ?_ ?_
+          · rw [e0]; simp only [walkU]; rw [if_neg (by omega)]
           · rw [e1]; simp only [walkU]; rw [if_pos (by omega)]; exact hB.2
+          · intro u hu
+            rw [e0, e1]
+            simp only [walkU] at hu
+            split at hu
+            · right; exact hB.1 u hu
+            · left; omega
       · have e1 : walkW true cur ((t, p) :: rest) w = cur :=
           walkW_cons_neg _ _ _ _ _ _ (by rw [wallThreshold_true]; exact hb)
         have hB := pre_in_cur w cur g ((t, p) :: rest) (by rw [transWf_cons]; exact hwf) (by
@@ -770,7 +786,6 @@ theorem situation (w : Int) (cur : Period) (g : Option Int) (T : List (Int × Pe
           obtain ⟨⟨rfl, rfl⟩, -⟩ := hr
           omega)
         exact .unique cur e0 e1 hB.2 hB.1
-
 
 /-- `u` is a UTC second whose local time in zone `z` is the wall-clock second `w` -/
 def IsPre (z : Zone) (w u : Int) : Prop := u + (periodAt z u).off = w
@@ -856,6 +871,22 @@ theorem localize_overlap_case (z : Zone) (w : Int)
     (hpre0 : IsPre z w (w - (wallPeriod false z w).off))
     (hr : InRange (w - (wallPeriod false z w).off)) :
     localize z none w = .error .ambiguous := by
+  rw [localize_eq]
+  rw [if_neg (by rw [Bool.not_eq_true]; exact (inRange_iff _).2 hr)]
+  unfold IsPre at hpre0
+  have : (wallPeriod false z w).off ≠ (wallPeriod true z w).off := by omega
+  simp [hpre0, this]
+
+/-- with a daylight-saving designation an ambiguous wall time is resolved, not refused -/
+theorem localize_overlap_flag (z : Zone) (w : Int) (flag : Bool)
+    (hoff : (wallPeriod true z w).off < (wallPeriod false z w).off)
+    (hpre0 : IsPre z w (w - (wallPeriod false z w).off))
+    (hr : InRange (w - (wallPeriod false z w).off)) :
+    localize z (some flag) w = .ok
+      (if flag == (if (wallPeriod false z w).dst == (wallPeriod true z w).dst
+                   then decide ((wallPeriod true z w).off > (wallPeriod false z w).off)
+                   else (wallPeriod true z w).dst)
+       then w - (wallPeriod true z w).off else w - (wallPeriod false z w).off) := by
   rw [localize_eq]
   rw [if_neg (by rw [Bool.not_eq_true]; exact (inRange_iff _).2 hr)]
   unfold IsPre at hpre0
